@@ -76,6 +76,15 @@ class RealWorld:
         return f'{t.vid}{hs}/{t.size.line}.{t.size.column}'
 
     def dump_store(self, sid):
+        """Internal state in the driver's format; None (and internal_ok = False) when a private name is gone - a
+        pure rename degrades the comparison to the observable queries instead of failing."""
+        try:
+            return self._dump_store(sid)
+        except AttributeError:
+            self.internal_ok = False
+            return None
+
+    def _dump_store(self, sid):
         s = self.stores[sid]
         parts = [f'len={s._len}']
         for b in s._blocks:
@@ -106,6 +115,10 @@ class RealWorld:
         return (f'first={o(s.get_first())} last={q(lambda: o(s.get_last()))} len={len(s)} iter={ids} ' + ' '.join(per)).rstrip() \
             if per else f'first={o(s.get_first())} last={q(lambda: o(s.get_last()))} len={len(s)} iter={ids} '
 
+    @staticmethod
+    def _ok(d):
+        return None if d is None else 'ok ' + d
+
     # ---- operations ---------------------------------------------------------------------------
     def apply(self, op):
         """Apply one op to the real store (and to the reference list when it succeeds).
@@ -123,7 +136,7 @@ class RealWorld:
                 return line.rstrip(), 'err ValueError:already-in-store', [], 'ValueError'
             self.stores[sid] = s
             self.refs[sid] = list(toks)
-            return line.rstrip(), 'ok ' + self.dump_store(sid), [], None
+            return line.rstrip(), self._ok(self.dump_store(sid)), [], None
         sid = op['sid']
         s = self.stores[sid]
         ref = self.refs[sid]
@@ -141,7 +154,7 @@ class RealWorld:
             t = self.toks[op['tok']]
             line = f'S update {sid} {op["tok"]} {enc_text(op["text"])}'
             t.raw_text = op['text']
-            return line, 'ok ' + self.dump_store(sid), [], None
+            return line, self._ok(self.dump_store(sid)), [], None
         toks = [self.tok(a) for a in op.get('toks', [])]
         tl = ' '.join(enc(a) for a in op.get('toks', []))
         g = lambda key: (self.toks[op[key]] if op.get(key) is not None else None)
@@ -190,7 +203,8 @@ class RealWorld:
             ref[i:j] = []
         after_ids = {id(t) for t in ref}
         removed = [t for t in before if id(t) not in after_ids]
-        out = 'ok ' + self.dump_store(sid) + ' removed=' + ' '.join(self.dump_tok(None, t) for t in removed)
+        d = self.dump_store(sid)
+        out = None if d is None else 'ok ' + d + ' removed=' + ' '.join(self.dump_tok(None, t) for t in removed)
         return line.rstrip(), out, removed, None
 
     # ---- oracle ---------------------------------------------------------------------------------
@@ -382,6 +396,8 @@ def run_histories(ctx, nhist, nops, lfs, with_model=True, prefix='C07', judge=('
                     failed = True
                     break
         batches.append(({'consts': consts, 'history': ops}, lines))
+        if not world.internal_ok:
+            ctx.extra['internal_view'] = 'unavailable'
     if with_model and ctx.extra.get('model_available', True):
         all_lines = ['reset'] * 0
         index = []
@@ -397,6 +413,8 @@ def run_histories(ctx, nhist, nops, lfs, with_model=True, prefix='C07', judge=('
             if li is None or bi in seen:
                 continue
             exp = batches[bi][1][li][1]
+            if exp is None:
+                continue   # internal view unavailable for this line (private name renamed): observable queries only
             if out.rstrip() != exp.rstrip():
                 seen.add(bi)
                 ctx.divergence('store-history', {'line': batches[bi][1][li][0], 'model': out[:600], 'real': exp[:600], 'step': li},
